@@ -188,12 +188,13 @@ w("""
 
 w("""
 // ---- connect / ping / disconnect / sleep exchanges ----
+// the state becomes the given one, nothing else changes; the notification of the keep-alive loop is a channel send inside a select (the
+// channel's content is not modelled: A-VALUECHAN)
 //@ func (*Client).setState
-//@   trusted
-//@   requires state: c != nil && c.state != nil
+//@   nopanic [C25]
+//@   requires [C25] state: c != nil && c.state != nil && c.cfg != nil && c.log != nil && c.groupCtx != nil
 //@   assigns deref(c.state)
 //@   ensures [C25] set: deref(c.state) == new
-//@ assumption [C25] A-CLIENTSTATE: Client.setState / notifyStateChange (a channel send to the keep-alive loop inside a select) are not verified: trusted contract 'the state becomes the given one, nothing else changes'
 //@ func newConnectTransaction
 //@   nopanic [C25]
 //@   requires [C25] cfg: client != nil && client.cfg != nil
@@ -205,7 +206,7 @@ w("""
 //@   assigns map(client.transactions.bypktType)
 //@ func (*connectTransaction).Connack
 //@   nopanic [C25]
-//@   requires [C25] wf: t != nil && t.client != nil && t.client.state != nil && timedWF(t.TimedTransaction) && connack != nil
+//@   requires [C25] wf: t != nil && t.client != nil && cLite(t.client) && timedWF(t.TimedTransaction) && connack != nil
 //@   assigns deref(t.client.state), armed(t.TimedTransaction.timer), t.TimedTransaction.TransactionBase.err,
 //@      closed(t.TimedTransaction.TransactionBase.done), calls(t.TimedTransaction.TransactionBase.finally)
 //@   ensures [C25] completes: finished(t.TimedTransaction.TransactionBase)
